@@ -309,7 +309,7 @@ where
     // 2. We can't refer to the box we create by address on the stack, because we will risk accessing
     // it after this part of the stack is destroyed/overwritten/whatever.
 
-    let map_ptr = unsafe {
+    let map_res = unsafe {
         mmap(
             None,
             NonZeroUsize::new_unchecked(size),
@@ -318,7 +318,19 @@ where
             MapAdditionalFlags::MAP_ANONYMOUS,
             None,
             0,
-        )?
+        )
+    };
+    let map_ptr = match map_res {
+        Ok(map_ptr) => map_ptr,
+        Err(e) => {
+            // No stack, no thread: release the boxed closure and the shared memory, nobody
+            // else knows about them yet.
+            unsafe {
+                drop_fn(fn_caller);
+                tsm.dealloc();
+            }
+            return Err(e.into());
+        }
     };
     // Stack grows downward
     let mut stack = map_ptr + size;
